@@ -18,6 +18,7 @@ package gradientDescent
 
 /* -------------------------------------------------------------------------- */
 
+import   "fmt"
 import   "math"
 
 import . "github.com/pbenner/autodiff"
@@ -92,6 +93,13 @@ func Run(f func(ConstVector) (MagicScalar, error), x0 Vector, step float64, args
     default:
       panic("GradientDescent(): Invalid optional argument!")
     }
+  }
+  if !(step > 0.0) {
+    return nil, fmt.Errorf("GradientDescent(): step size must be positive (got %v)", step)
+  }
+  // the algorithm has no iteration limit: only the hook could stop it
+  if !(epsilon > 0.0) && hook == nil {
+    return nil, fmt.Errorf("GradientDescent(): epsilon must be positive if no Hook is given (got %v)", epsilon)
   }
   return gradientDescent(f, x0, step, epsilon, hook)
 }
